@@ -7,6 +7,13 @@ ALL = ["C%02d" % i for i in range(1, 21)]
 
 # id -> (level category, technique, level text, level note, design ref)
 CHECKS = {
+    "C08": (
+        "model_checking",
+        "bounded-exhaustive enumeration of grammars x inputs x {recovery off, on}; parse_actions with recording closures checked against the post-order of the returned value",
+        "Every grammar of the universes, the empty-production family (empty productions first / middle / last / only, nested) and the seed grammars, every input up to the bound, with recovery off and (on conflict-free productive tables) on, so that both copies of the reduce code run: one recording closure per production logs production, rule argument, span, argument kinds/values and parameter. From the returned value the expected log is recomputed: exactly one call per tree node in bottom-up left-to-right order, arguments = children in order and of the right kind, span = extent of the derived lexemes (zero-length if none), parameter as passed, and the action-built tree equals parse_map's generic tree.",
+        "A span may count or ignore inserted (zero-length, faulty) lexemes at its ends; a production that derived nothing may put its zero-length span anywhere. Tree comparison is skipped (and counted) when the two runs applied different equal-rank repairs.",
+        "DESIGN.md 3/C08",
+    ),
     "C05": (
         "model_checking",
         "bounded-exhaustive enumeration of grammars x cost vectors x erroneous inputs; every reported repair sequence replayed through an independent LR driver over the public table; differential re-parse of the repaired input",
